@@ -35,7 +35,8 @@ type c08Scenario struct {
 	Fault  string `json:"fault"`  // close reset stall exit kill
 	At     string `json:"at"`     // b0 headers-mid headers-done mid between done req-mid post-b0 post-mid byte:N
 	NCalls int    `json:"ncalls"`
-	Ctx    string `json:"ctx"` // deadline cancel none
+	Ctx    string `json:"ctx"`   // deadline cancel none
+	Retry  bool   `json:"retry"` // the client is configured with retries (3 s initial back-off)
 }
 
 type c08Call struct {
@@ -186,7 +187,7 @@ func (s *c08Srv) cut(head string, parts []string) (all string, off int, delivere
 		off = last - len(parts[len(parts)-1])/2
 	case at == "between":
 		off = last - len(parts[len(parts)-1])
-	case at == "done":
+	case at == "done" || at == "done-trail":
 		off = last
 	case strings.HasPrefix(at, "byte:"):
 		fmt.Sscanf(at, "byte:%d", &off)
@@ -304,6 +305,14 @@ func (s *c08Srv) serveConn(c net.Conn) {
 			} else {
 				head = httpHead(200, "text/event-stream", "Mcp-Session-Id: s1\r\n", -1)
 				parts = []string{"id: 1\ndata: " + c08Notif + "\n\n", "id: 2\ndata: " + ans + "\n\n"}
+				if s.sc.At == "done-trail" {
+					// the stream goes on behind the answer: keep-alive comments and further notifications, already readable when the call returns
+					trail := ""
+					for k := 0; k < 24; k++ {
+						trail += ": keep-alive\n\n" + fmt.Sprintf("id: %d\ndata: %s\n\n", 3+k, c08Notif)
+					}
+					parts[1] += trail
+				}
 			}
 			all, off, deliv := s.cut(head, parts)
 			if s.sc.Client == "json" && s.sc.At == "between" {
@@ -420,7 +429,11 @@ func c08Run(sc c08Scenario) (res c08Result) {
 	switch sc.Client {
 	case "json", "sse", "sse-nh":
 		url := "http://" + srv.ln.Addr().String() + "/mcp"
-		c, err := mcp.NewClient(url, info, mcp.WithClientLogger(silentLogger{}), mcp.WithClientGetSSEEnabled(false))
+		copts := []mcp.ClientOption{mcp.WithClientLogger(silentLogger{}), mcp.WithClientGetSSEEnabled(false)}
+		if sc.Retry {
+			copts = append(copts, mcp.WithRetry(mcp.RetryConfig{MaxRetries: 2, InitialBackoff: 3 * time.Second, BackoffFactor: 2, MaxBackoff: 10 * time.Second}))
+		}
+		c, err := mcp.NewClient(url, info, copts...)
 		if err != nil {
 			srv.closeAll()
 			res.Broken = err.Error()
@@ -431,7 +444,11 @@ func c08Run(sc c08Scenario) (res c08Result) {
 		}
 		cl = c
 	case "legacy":
-		c, err := mcp.NewSSEClient("http://"+srv.ln.Addr().String()+"/sse", info, mcp.WithClientLogger(silentLogger{}))
+		copts := []mcp.ClientOption{mcp.WithClientLogger(silentLogger{})}
+		if sc.Retry {
+			copts = append(copts, mcp.WithRetry(mcp.RetryConfig{MaxRetries: 2, InitialBackoff: 3 * time.Second, BackoffFactor: 2, MaxBackoff: 10 * time.Second}))
+		}
+		c, err := mcp.NewSSEClient("http://"+srv.ln.Addr().String()+"/sse", info, copts...)
 		if err != nil {
 			srv.closeAll()
 			res.Broken = err.Error()
@@ -600,6 +617,7 @@ func c08Run(sc c08Scenario) (res c08Result) {
 			case <-time.After(6 * time.Second):
 				call.Hung = true
 				call.EndMs = ms(time.Now())
+				cancel()
 				return
 			}
 			cancel()
